@@ -89,6 +89,8 @@ func runC06(c *eng.Ctx) {
 					ok, why := ls.SameHold(first, st.Instr, mu, true)
 					c.Check(ok, "one-hold:"+fld, st.Instr, f, "all positions are reset in one write hold", why)
 				}
+				// a reset position is persisted like any other position change (a reopen restores the pair that was reset)
+				metaFollows(c, f, st.Instr, v, ".metaPage", mu)
 			}
 		})
 	}
@@ -340,6 +342,10 @@ func zeroLike(v ssa.Value) ssa.Value { return ssa.NewConst(constantZero, v.Type(
 // PutUint64 of the same value on the meta page happens inside the same hold.
 func metaFollows(c *eng.Ctx, f *ssa.Function, st ssa.Instruction, v ssa.Value, recvSuffix, mu string) {
 	p := c.P
+	sfx := ""
+	if fld := fieldOfStore(p, st); fld != "" {
+		sfx = ":" + fld
+	}
 	puts := p.Sites(f, invokeOn(recvSuffix, "PutUint64"))
 	var same []eng.Site
 	for _, s := range puts {
@@ -350,20 +356,20 @@ func metaFollows(c *eng.Ctx, f *ssa.Function, st ssa.Instruction, v ssa.Value, r
 		}
 	}
 	if len(same) == 0 {
-		c.Check(false, "persisted", st, f, "the stored position is also written to the meta page", "no meta page write of the stored value found")
+		c.Check(false, "persisted"+sfx, st, f, "the stored position is also written to the meta page", "no meta page write of the stored value found")
 		return
 	}
 	// every path from the store to a return passes one of them
 	_, escapes := eng.PathExists(eng.PathQuery{Fn: f, After: st,
 		Target:  func(in ssa.Instruction) bool { _, ok := in.(*ssa.Return); return ok },
 		Blocked: func(in ssa.Instruction) bool { return instrIn(in, same) }})
-	c.Check(!escapes, "persisted", st, f, "on every path after the in-memory store the same value is written to the meta page before returning", "a path returns without persisting the position")
+	c.Check(!escapes, "persisted"+sfx, st, f, "on every path after the in-memory store the same value is written to the meta page before returning", "a path returns without persisting the position")
 	ls := p.Locks(f, nil)
 	mode := mu != cgMu || true
 	_ = mode
 	for _, s := range same {
 		held := ls.At(s.Instr).HasField(mu, false)
-		c.Check(held, "persist-in-hold", s.Instr, f, "the meta page write happens in the same hold as the store", "held: "+ls.At(s.Instr).String())
+		c.Check(held, "persist-in-hold"+sfx, s.Instr, f, "the meta page write happens in the same hold as the store", "held: "+ls.At(s.Instr).String())
 	}
 }
 
